@@ -108,6 +108,47 @@ pub fn run(seed: u64, n: u64, target: usize, path: &str) -> Value {
             }
             true
         }));
+        // the strip stream over an inner writer that accepts at most `lim` bytes per call and is interrupted now and then
+        // (the short-write recovery and error paths are only reachable this way)
+        for lim in [1usize, 2, 3, 5] {
+            let name = ["", "StripStream::write(short 1)", "StripStream::write(short 2)", "StripStream::write(short 3)", "", "StripStream::write(short 5)"][lim];
+            apis.push(guard(name, || {
+                struct Lim(usize, u64, Vec<u8>);
+                impl Write for Lim {
+                    fn write(&mut self, b: &[u8]) -> std::io::Result<usize> {
+                        self.1 += 1;
+                        if self.1 % 7 == 3 {
+                            return Err(std::io::ErrorKind::Interrupted.into());
+                        }
+                        let n = b.len().min(self.0);
+                        self.2.extend_from_slice(&b[..n]);
+                        Ok(n)
+                    }
+                    fn flush(&mut self) -> std::io::Result<()> {
+                        Ok(())
+                    }
+                }
+                let inner: Box<dyn Write> = Box::new(Lim(lim, 0, Vec::new()));
+                let mut s = anstream::StripStream::new(inner);
+                let mut p = 0;
+                let mut guard_n = 0;
+                while p < input.len() && guard_n < 4 * input.len() + 16 {
+                    guard_n += 1;
+                    let end = (p + 1 + (guard_n * 7) % 23).min(input.len());
+                    match if guard_n % 5 == 0 { s.write_vectored(&[std::io::IoSlice::new(&[]), std::io::IoSlice::new(&input[p..end])]) } else { s.write(&input[p..end]) } {
+                        Ok(n) => {
+                            if n > end - p {
+                                return false;
+                            }
+                            p += n;
+                        }
+                        Err(e) if e.kind() == std::io::ErrorKind::Interrupted => {}
+                        Err(_) => return false,
+                    }
+                }
+                true
+            }));
+        }
         if let Ok(text) = std::str::from_utf8(&input) {
             apis.push(guard("strip_str", || anstream::adapter::strip_str(text).all(|p| inside(&input, p.as_bytes()) && std::str::from_utf8(p.as_bytes()).is_ok())));
             apis.push(guard("StripStr(chars)", || {
@@ -129,6 +170,39 @@ pub fn run(seed: u64, n: u64, target: usize, path: &str) -> Value {
             apis.push(guard("anstyle_ls::parse", || {
                 let _ = anstyle_ls::parse(text);
                 let _ = anstyle_ls::parse(&text.replace('\x1b', ";"));
+                true
+            }));
+            // words shaped like the parsers' own syntax built from the input's characters: `#` + 1..6 characters
+            // (hex colours are sliced by BYTE index), signed numbers, separators
+            apis.push(guard("anstyle_git::parse(shaped)", || {
+                let chars: Vec<char> = text.chars().filter(|c| !c.is_whitespace()).take(48).collect();
+                for w in 1..=6 {
+                    for win in chars.windows(w).take(24) {
+                        let word: String = win.iter().collect();
+                        let _ = anstyle_git::parse(&format!("#{word}"));
+                        let _ = anstyle_git::parse(&format!("bold #{word} #1{word}"));
+                        let _ = anstyle_git::parse(&format!("#12{word}"));
+                        let _ = anstyle_git::parse(&format!("#1234{word}"));
+                        let _ = anstyle_git::parse(&format!("no{word} -{word} +{word} bright{word}"));
+                    }
+                }
+                true
+            }));
+            apis.push(guard("anstyle_ls::parse(shaped)", || {
+                let chars: Vec<char> = text.chars().filter(|c| !c.is_whitespace()).take(32).collect();
+                for w in 1..=4 {
+                    for win in chars.windows(w).take(16) {
+                        let word: String = win.iter().collect();
+                        let _ = anstyle_ls::parse(&format!("38;5;{word}"));
+                        let _ = anstyle_ls::parse(&format!("{word};48;2;1;{word};3"));
+                        let _ = anstyle_ls::parse(&format!("01;{word}"));
+                    }
+                }
+                for n in [255u64, 256, 65535, 65536, 4294967295, 4294967296, 18446744073709551615] {
+                    let _ = anstyle_ls::parse(&format!("{n}"));
+                    let _ = anstyle_ls::parse(&format!("38;5;{n}"));
+                    let _ = anstyle_ls::parse(&format!("38;2;{n};0;{n}0"));
+                }
                 true
             }));
         }
